@@ -79,7 +79,7 @@ def run_case(case, acc, order):
     if not np.array_equal((times * rate).astype(np.int64), samples):
         rate = 1.0                       # the precondition "time * rate is exact" does not hold here
         times = samples / rate
-    ctype = [np.int64, np.int32][(order + case['seed']) % 2]
+    ctype = [np.int64, np.int32, np.uint32][(order // len(RATES) + case['seed']) % 3]
     lists = id_lists(alphabet, case['tier'], order + case['seed'])
     only = case.get('only')
     labelings = [tuple(only['labels'])] if only is not None else \
@@ -108,7 +108,9 @@ def run_case(case, acc, order):
                     exp = ref_symmetric(C) if sym else C
                     try:
                         with core.time_limit(5):
-                            got = correlograms(times, labels_arr, cluster_ids=ids, sample_rate=rate,
+                            ids_arg = ids if ids is None else [list(ids), np.array(ids, dtype=np.int64),
+                                                               tuple(ids)][(b + half + sym) % 3]
+                            got = correlograms(times, labels_arr, cluster_ids=ids_arg, sample_rate=rate,
                                                bin_size=bin_size, window_size=window, symmetrize=sym)
                     except (Exception, core.CaseTimeout) as e:
                         got = e
